@@ -231,7 +231,10 @@ class Rule(MethodWIGM):
                     for c in tied:
                         if c.cid == cn0.cid:
                             return c
-            c0 = C.byTieOrder(tied)[0]
+                #  several candidates share the lowest (highest) vote at this stage:
+                #  only they remain in contention at earlier stages and in the lot
+                tiedCids = [cn.cid for cn in tiedCN]
+            c0 = C.byTieOrder([c for c in tied if c.cid in tiedCids])[0]
             E.logAction('tie', 'Break tie by lot (%s): [%s] -> %s' % (reason, names, c0.name))
             return c0
 
